@@ -122,15 +122,20 @@ func runOne(ctx context.Context, sp solverSpec, file string, timeoutS int) (stri
 			}
 		}
 	}
-	args := sp.args(file, timeoutS)
-	cctx, cancel := context.WithTimeout(ctx, time.Duration(timeoutS+2)*time.Second)
+	// The budget is CPU time of the solver process (ulimit -t), not wall-clock time: on a busy machine a query takes
+	// longer but is decided exactly when it would be decided on an idle one, so verdicts do not depend on the load.
+	// The solver's own wall-clock limit and the context deadline are a generous multiple, as a safety net only.
+	wall := timeoutS*wallFactor + 5
+	args := sp.args(file, wall)
+	cctx, cancel := context.WithTimeout(ctx, time.Duration(wall+3)*time.Second)
 	defer cancel()
-	cmd := exec.CommandContext(cctx, args[0], args[1:]...)
+	shArgs := append([]string{"-c", fmt.Sprintf("ulimit -t %d; exec \"$@\"", timeoutS+1), "sh"}, args...)
+	cmd := exec.CommandContext(cctx, "/bin/sh", shArgs...)
 	var buf bytes.Buffer
 	cmd.Stdout = &buf
 	cmd.Stderr = &buf
 	start := time.Now()
-	_ = cmd.Run()
+	runErr := cmd.Run()
 	el := time.Since(start).Seconds()
 	out := buf.String()
 	if ctx.Err() != nil {
@@ -139,7 +144,14 @@ func runOne(ctx context.Context, sp solverSpec, file string, timeoutS int) (stri
 	if cctx.Err() != nil {
 		return "timeout", out, el
 	}
-	return parseVerdict(out), out, el
+	v := parseVerdict(out)
+	if runErr != nil && v != "sat" && v != "unsat" {
+		if ee, ok := runErr.(*exec.ExitError); ok && !ee.Exited() {
+			// killed by SIGXCPU / SIGKILL: CPU budget exhausted
+			return "timeout", out, el
+		}
+	}
+	return v, out, el
 }
 
 // solve races the solvers on query (which must end with (check-sat) and optionally (get-model)).
@@ -222,6 +234,9 @@ func solve(workdir, name, query string, timeoutS int, needTwo bool) SolverResult
 }
 
 var keepQueries = os.Getenv("ACV_KEEP") != ""
+
+// wallFactor: wall-clock safety net as a multiple of the CPU budget of a solver run.
+const wallFactor = 8
 
 func hashStr(s string) uint64 {
 	var h uint64 = 1469598103934665603
